@@ -26,7 +26,7 @@ def describe(tier):
     return {
         "rule": "G: all (n,k) with n in 0..40, k in 1..8, both directions, IPv4/IPv6; S: all sequences of (direction, n, k) records "
                 f"to depth 2 over n in {NS} x k in {KS}" + ("" if tier == "quick" else f" and to depth 3 over n in {NS3} x k in {KS3}") + "; P: product of option sets (-m absent/bare/"
-                "pairs, -a, -c, -p, -g) x 13 capture kinds (incl. reordered and retransmitted TLS segments, client ports that are configured server ports). non-trivial: an output holding >= 1 TCP conversation or UDP datagram that "
+                "pairs, -a, -c, -p, -g) x 14 capture kinds (incl. reordered and retransmitted TLS segments, client ports that are configured server ports, equal client and server port numbers in a capture stamped from 0). non-trivial: an output holding >= 1 TCP conversation or UDP datagram that "
                 "passed every structural test; distinct = distinct scenario",
         "exhaustive": True,
         "bounds": {"grid": "n 0..40 x k 1..8", "sequence_depth": "2 (full alphabet)" if tier == "quick" else "2 (full alphabet), 3 (reduced alphabet)"},
@@ -129,7 +129,7 @@ def check_builder(specs, v6):
 
 
 P_CAPTURES = ["tls_ok", "quic_ok", "tls_nokeys", "quic_nokeys", "quic_unknown_version", "http_on_443", "junk_udp", "empty", "mixed",
-              "tls_reordered", "tls_retransmitted", "tls_many_segments_two_flows", "client_port_is_server_port"]
+              "tls_reordered", "tls_retransmitted", "tls_many_segments_two_flows", "client_port_is_server_port", "equal_ports_epoch_zero"]
 P_OPTS = {"m": [None, [], ["443:8081"], ["443:8081", "8443:9000"]], "a": [False, True], "c": [False, True], "p": [None, ["8443"]],
           "g": [False, True]}
 
@@ -174,6 +174,17 @@ def program_capture(kind, seed):
             lists.append(pk_)
         pk_ = add_quic(1)
         ends[1].client.port = 44330
+        lists.append(pk_)
+    if kind == "equal_ports_epoch_zero":
+        # client and server use the SAME port number (443 <-> 443, 44330 <-> 44330: still unique 4-tuples), and the capture's
+        # timestamps are relative to its first packet (the first packet is stamped 0)
+        for idx, port, scn in ((0, 443, {}), (9, 44330, {"version": tls.TLS13, "suite": 0x1301})):
+            pk_ = add_tls(idx, **scn)
+            ends[idx].client.port = port
+            ends[idx].server.port = port
+            lists.append(pk_)
+        pk_ = add_quic(1)
+        ends[1].client.port = 443
         lists.append(pk_)
     if kind in ("quic_ok", "mixed"):
         lists.append(add_quic(1))
@@ -227,7 +238,7 @@ def program_capture(kind, seed):
             ends[1] = g.ends
             keylog.extend(g.keylog())
             lists.append(g.pkts)
-    pk = cap.stamp([p.copy() for p in scen.round_robin(lists)], ends) if lists else []
+    pk = cap.stamp([p.copy() for p in scen.round_robin(lists)], ends, **({"t0": 0} if kind == "equal_ports_epoch_zero" else {})) if lists else []
     return pk, keylog
 
 
